@@ -12,6 +12,7 @@ pub fn matches(expected: &Value, observed: &Value) -> bool {
     match ek {
         "any" => matches!(ok_, "ok" | "type" | "range" | "syntax"),
         "err" => matches!(ok_, "type" | "range" | "syntax"),
+        "ratio" => ok_ == "ok" && ratio_ok(&observed["val"], &expected["n"], &expected["d"]),
         "ok" => ok_ == "ok" && (expected.get("val").is_none() || expected["val"] == observed["val"]),
         k => k == ok_,
     }
@@ -49,4 +50,15 @@ pub fn main(a: &[String]) {
     let mut f = std::fs::File::create(report).expect("report");
     for (_, m) in &mm { writeln!(f, "{}", m).unwrap(); }
     println!("{}", json!({"cases": n, "mismatches": mm.len(), "samples": samples.into_inner().unwrap()}));
+}
+
+/// the observed double m*2^e must render the exact rational n/d: exactly when n/d is an integer of magnitude <= 2^53,
+/// otherwise within a relative error of 2^-50 (replay-side mirror of Duration!F64Approximates, which the trace specs evaluate exactly)
+pub fn ratio_ok(val: &Value, n: &Value, d: &Value) -> bool {
+    let (m, e) = (crate::js::unbig(&val["m"]), val["e"].as_i64().unwrap_or(0));
+    let (n, d) = (crate::js::unbig(n), crate::js::unbig(d));
+    let obs = (m as f64) * (2.0f64).powi(e as i32);
+    if n % d == 0 && (n / d).abs() <= (1i128 << 53) { return obs == (n / d) as f64; }
+    let exact = (n as f64) / (d as f64);
+    (obs - exact).abs() <= exact.abs() * (2.0f64).powi(-50)
 }
